@@ -17,7 +17,7 @@ CONFIG = {
     ],
     "modelled": ["cache.SetUMoney", "cache.DeUMoney", "cache.MoneyOf", "cache.passwdUpdateMoney", "ptttype.UID.ToUIDInStore",
                  "ptt.passwdSyncQuery (through ptt.GetUser)", "ptt.passwdSyncUpdate (through ptt.SetUserPerm)",
-                 "cmbbs.PasswdQuery", "cmbbs.PasswdUpdate", "ptt.SetupNewUser (tail after cache.SetUserID)", "ptt.ChangeEmail / ptt.ChangePasswd as field writers (cmbbs.PasswdUpdateEmail / PasswdUpdatePasswd)", "ptt.killUser (record / balance part; reached through tryCleanUser -> checkAndExpireAccount)",
+                 "cmbbs.PasswdQuery", "cmbbs.PasswdUpdate", "ptt.SetupNewUser (tail after cache.SetUserID)", "ptt.ChangeEmail / ptt.ChangePasswd as field writers (cmbbs.PasswdUpdateEmail / PasswdUpdatePasswd)", "cache.SetUserID (balance part: none; the user-id array is kept by the driver, the hash chains are C04's)", "ptt.killUser (record / balance part; reached through tryCleanUser -> checkAndExpireAccount)",
                  "cache.LoadUHash / fillUHash / userecRawAddToUHash (Userid, Money, invalid-id counter; fresh and on-the-fly; the hash chains are C04's)",
                  "ptttype.USE_COOLDOWN (site configuration, driven in both values)", "UserID_t.IsValid, types.Cstrcmp on user ids", "encoding/binary bool normalisation of UserecRaw"],
     "assumptions": [
